@@ -108,8 +108,11 @@ def r3_clone_guard(ctx):
                 if 'clone' in strs:
                     builders.append((b, bb, st))
     ctx.floor('C04.R3', 'builders of a `clone` trait-method callable', len(builders), 1)
+    from .compiler_common import family_items
+    fam = family_items(ctx, 'pavexc', [fn])
     for b, bb, st in builders:
-        ctx.ob('C04.R3', 'clone-builder|%s' % b.nroot.split('::')[-1], b.nroot == fn, b.loc(bb, st), '`clone` callable built in %s' % b.nroot)
+        ctx.ob('C04.R3', 'clone-builder|%s' % b.nroot.split('::')[-1], b.nroot in fam, b.loc(bb, st),
+               '`clone` callable built in %s%s' % (b.nroot, '' if b.nroot == fn or b.nroot not in fam else ' (private helper of get_clone_component_id)'))
     g = ctx.need('C04.R3', 'get_clone_component_id', ctx.fb.body('pavexc', fn))
     if g is not None:
         pol = [(bb, t) for bb, t in g.calls() if (callee(t) or '').endswith('ComponentDb::cloning_policy')]
@@ -136,6 +139,43 @@ def r3_clone_guard(ctx):
                                 if rv and rv['k'] == 'agg' and rv.get('adt', '').endswith('CloningPolicy'):
                                     consts.append(rv['var'])
             ok = ok and (not consts or 'NeverClone' in consts or any('NeverClone' in c for c in consts))
+        if not ok:
+            # P11 case evaluation: with the policy lookup answering NeverClone, the function (private helpers entered) returns None on every path
+            from ..absint_std import StdSem, TagInterp
+            CP = None
+            for a_ in ctx.fb.adts('pavexc'):
+                if strip_generics(a_['id']).endswith('::CloningPolicy'):
+                    CP = strip_generics(a_['id'])
+
+            class Sem(StdSem):
+                crate = 'pavexc'
+
+                def __init__(self, fb):
+                    super().__init__(fb)
+                    self.asked = 0
+
+                def domain_call(self, interp, path, body, bb_, term, short):
+                    d_ = term.get('dest')
+                    if short.endswith('ComponentDb::cloning_policy') and d_ is not None and not d_.get('p'):
+                        self.asked += 1
+                        dk = (body.id, d_['l'])
+                        path.alias.pop(dk, None)
+                        path.memo.pop(dk, None)
+                        path.tags[dk] = 'ev:%s::NeverClone' % strip_generics(body.locals[d_['l']])
+                        path.env['never'] = True
+                        return [('next', path)]
+                    return None
+
+                def descend_into(self, short):
+                    return short in fam and short != fn
+
+            sem = Sem(ctx.fb)
+            try:
+                outs = TagInterp(sem, max_paths=5000).run(g, {})
+                after = [oc for oc in outs if oc[0] == 'return' and oc[1].env.get('never')]
+                ok = sem.asked > 0 and bool(after) and all(oc[1].tags.get((g.id, 0)) == 'opt:None' for oc in after)
+            except RuntimeError:
+                ok = False
         ctx.ob('C04.R3', 'never-clone-returns-none', ok, g.loc(pol[0][0]) if pol else g.loc(),
                'Some(clone component) is reachable only when cloning_policy() != NeverClone: %s' % ok)
 
